@@ -19,11 +19,13 @@ RULE = (
     "theory card, per point a dense normal (or single-entry) operator and an optional error tensor, applied on the "
     "freshly built object or after close + EKO.read. Inputs: table PDFs xf(x,Q2) with a random subset of 0-13 "
     "flavours missing (apply_pdf with/without rotation to the (unified) evolution basis and with/without a target "
-    "grid of 1-6 points mixing grid nodes and interior points; apply_pdf_flavor with a random m x 14 rotation and "
+    "grid of 1-6 points mixing grid nodes and interior points; one third of the EKOs built from a card with "
+    "interpolation_is_log False (interpolation in x, freshly built object only); apply_pdf_flavor with a random "
+    "m x 14 rotation and "
     "arbitrary labels), raw replica grids (apply_grids, 1-3 replicas) and wrongly shaped grids (must raise "
     "ValueError). Oracle: out[ep][a][j] = sum_{b,k} op[a,j,b,k] xf_b(x_k, mu0^2)/x_k by explicit loops (same for the "
     "error tensor, only where an error is stored), rotation rows from the documented basis definitions "
-    "(vf.refs.flavor_ref), target grid by an independent Lagrange-in-ln(x) matrix built from Interpolation.rst; key "
+    "(vf.refs.flavor_ref), target grid by an independent Lagrange matrix (in ln x, or in x for linear grids) built from Interpolation.rst; key "
     "sets and label order as documented. Non-trivial = at least 2 points, a missing flavour and rotation or target "
     "grid on (apply_grids: >= 2 points and >= 2 replicas); distinct by case."
 )
@@ -36,7 +38,9 @@ ASSUMPTIONS = [
     "tables of eko.basis_rotation themselves are decided by C31)",
     "target points lie inside [x_min, 1]; a target grid with the length of the internal grid and within np.allclose "
     "of it but not equal is not generated (that shortcut of get_interpolation belongs to C42)",
-    "interpolation in ln(x) (interpolation_is_log = True, the only mode the archive metadata can express, see C40)",
+    "interpolation in ln(x) or, for cards with interpolation_is_log False, in x with the same area/block rule; linear "
+    "grids are applied on the freshly built object only, because the archive metadata cannot store the flag (open "
+    "known finding C36/C40 'xgrid-log-flag')",
 ]
 LEVEL_TEXT = (
     "Generated-input exploration of apply_pdf / apply_pdf_flavor / apply_grids / rotate_result on synthetic EKOs with "
@@ -110,10 +114,15 @@ def strategy(tier):
             rotate=draw(st.booleans()),
             target=target,
             reopen=draw(st.booleans()),
+            is_log=draw(st.sampled_from([True, True, False])),
             nrep=draw(st.integers(1, 3)),
             rot_rows=draw(st.sampled_from([0, 1, 3, 14, 16])),
             bad=draw(st.sampled_from(["2d", "flavours", "xpoints", "swapped", "4d"])),
         )
+        if not case["is_log"]:
+            # the archive metadata cannot store the interpolation type (open finding C36/C40 'xgrid-log-flag'):
+            # a linear grid survives only on the freshly built object
+            case["reopen"] = False
         return case
 
     return build()
@@ -185,6 +194,9 @@ def check_case(case):
 
     res = CaseResult()
     xgrid, deg, qed, mode = case["xgrid"], case["deg"], bool(case["qed"]), case["mode"]
+    is_log = bool(case.get("is_log", True))
+    if not is_log and case["reopen"]:
+        return CaseResult(discarded="linear grid re-read from disk (flag not stored: C36/C40)")
     n = len(xgrid)
     points = case["points"]
     target = case["target"]
@@ -206,6 +218,7 @@ def check_case(case):
     res.classes = [
         f"mode={mode}", f"qed={int(qed)}", f"points={len(points)}", f"n={n}", f"deg={deg}",
         f"missing={len(case['missing'])}", f"kind={case['kind']}", f"reopen={case['reopen']}",
+        f"interp={'log' if is_log else 'linear'}",
         f"errors={sum(case['errs'])}/{len(points)}",
     ]
     if mode in ("pdf", "flavor"):
@@ -218,7 +231,7 @@ def check_case(case):
     else:
         res.nontrivial = False
 
-    theory, operator = ru.cards(bs.card_case(xgrid, deg, case["init"], points, qed=int(qed)))
+    theory, operator = ru.cards(bs.card_case(xgrid, deg, case["init"], points, qed=int(qed), is_log=is_log))
     d = bs.fresh_dir("vf-c43-")
     eko = None
     try:
@@ -288,7 +301,7 @@ def check_case(case):
         else:
             want_labels = labels
             rows = None if rotation is None else rotation.tolist()
-        rmat, amat = (None, None) if target is None else bs.interp_matrix(xgrid, deg, target, True)
+        rmat, amat = (None, None) if target is None else bs.interp_matrix(xgrid, deg, target, True, log=is_log)
         f = bs.input_table(pdf, xgrid, mu20)
         for ep, (op, err) in tensors.items():
             for name, tens, container in (("value", op, got), ("error", err, goterr)):
